@@ -173,8 +173,12 @@ def run(tier, seed):
             ("(define-syntax def-bad\n  (syntax-rules ()\n    ((def-bad n v)\n     (define n\n        (list 1 %s)))))" % fault_e, "(def-bad zz %s)" % arg),
             ("(define-syntax each-bad (syntax-rules () ((each-bad (ok v) ...) (list (if ok 'fine %s) ...))))" % fault_e, "(each-bad (#t 1) (#t 2) (#f %s))" % arg),
             ("(define-syntax run-bad (syntax-rules () ((run-bad v) (begin 1 %s))))" % fault_e, "(run-bad %s)" % arg),
-            ("(define-syntax set-bad (syntax-rules () ((set-bad n v) (begin (define n 0) (set! n %s)))))" % fault_e, "(set-bad zz %s)" % arg)])
-        pre = ["(define (f2 a b) (+ a b))"] + ["(define filler%d %d)" % (i, i) for i in range(rng.choice([0, 2, 9, 40]))]
+            ("(define-syntax set-bad (syntax-rules () ((set-bad n v) (begin (define n 0) (set! n %s)))))" % fault_e, "(set-bad zz %s)" % arg),
+            # the operator of the failing call is a compound expression written in a (repeated) sub-template; the fault comes in a later repetition
+            ("(define-syntax each-call\n  (syntax-rules ()\n    ((each-call n ...)\n     (list ((pick n) '(a b)) ...))))", "(each-call 1 1 2)"),
+            ("(define-syntax each-call2 (syntax-rules () ((each-call2 (n m) ...) (vector ((if (= n m) car (pick 2)) '(a b)) ...))))", "(each-call2 (1 1) (2 2) (1 2))"),
+            ("(define-syntax one-call (syntax-rules () ((one-call n) (list 0 ((pick n) '(a b))))))", "(one-call 2)")])
+        pre = ["(define (f2 a b) (+ a b))", "(define (pick n) (if (= n 1) car 5))"] + ["(define filler%d %d)" % (i, i) for i in range(rng.choice([0, 2, 9, 40]))]
         pos = rng.randrange(1, len(pre) + 1)
         forms_t = pre[:pos] + [macro] + pre[pos:] + [use]
         text = "\n".join(forms_t) + rng.choice(["", "\n"])
